@@ -2,6 +2,7 @@
 from .. import tables as T
 from ..rules import schedule as R7
 from ..rules import influence as R1
+from ..rules import reachdef as R1A
 from ..rules.serde import walk
 
 CONFIGS_QUICK = ["default"]
@@ -17,7 +18,8 @@ EXPLANATION = (
     "other does not, in another order, under a different guard, or keyed to a different proof field, the two sponges "
     "diverge for the inputs taking that path, and either the honest proof is rejected or the end states differ. Plus "
     "R1: the sponge parameter can influence every verifier's outcome (a proof is bound to the transcript it was made "
-    "for). Equality of sponge *states* needs the sponge's semantics and is not decided; longer histories follow by "
+    "for); R1all: a variable that holds a squeezed challenge on some path holds one at every use (a combiner "
+    "initialised with a constant and only later overwritten by a challenge leaves the first element unbound). Equality of sponge *states* needs the sponge's semantics and is not decided; longer histories follow by "
     "composition.")
 RULE = ("instances = 18 (scheme, operation) pairs x tree equality + verifier anchors x sponge liveness; floor: at least "
         "30 sponge operations classified")
@@ -119,4 +121,5 @@ def run(rep, ctx, tier):
             continue
         g = ctx.graph(a)
         ok, p = R1.reach_from(ctx, g, [(a.body.id, a.roles["sponge"])])
+        R1A.run(rep, ctx, a, "R1all")
         rep.add("R1", "%s:sponge" % a.key, ok, "the transcript %s the verifier's outcome" % ("can influence" if ok else "cannot influence"), a.body.span)
